@@ -15,7 +15,8 @@
 From Coq Require Import List Arith NArith Bool.
 Import ListNotations.
 Require Import Aiuti.FLock Aiuti.FLockInv Aiuti.FLockSpec Aiuti.FLockTL Aiuti.FLockFD Aiuti.FLockMutex
-               Aiuti.FLockExec Aiuti.FLockAcq Aiuti.FLockRel Aiuti.FLockSeq.
+               Aiuti.FLockExec Aiuti.FLockAcq Aiuti.FLockRel Aiuti.FLockTerm Aiuti.FLockSeq.
+Require Aiuti.Case_C12.
 
 (* A failing acquire — False, TimeoutError or a re-raised OSError — under EVERY fault
    script (any number of OSErrors in open / lock / unlock / close), from every
@@ -92,6 +93,113 @@ Theorem release_faults :
     (o_dep (objs s0 o) = o_cnt (objs s0 o) -> o_own (objs s' o) = None /\ o_dep (objs s' o) = 0).
 Proof. exact release_faults_lemma. Qed.
 Print Assumptions release_faults.
+
+(* ------------------------------------------------------------------------------------------
+   The sequential view: sequences of calls, each run to completion, refine the abstract
+   Lock/RLock contract FLockSpec.v (state = None | Some (object, thread, depth): "at most
+   one object holds the path" by construction; spec_acquire / spec_release / spec_no).
+   [run_calls fuel s ops] = the model (do_call per item, stopping at a call that blocks);
+   [spec_calls] = the spec; [ok_calls] = the property's contract along the sequence
+   (a thread releases only a lock it holds or an unheld one); [call_fuel_ok] = a timed
+   acquire has poll >= 1 and the fuel covers its polling (5*((T+poll)/poll)+16);
+   [Rq reent dflt s st] = representation invariant + abstraction: all threads idle, no
+   OSError scripted, st = None <-> no object records a descriptor, every thread lock free,
+   counters 0, kernel lock free; st = Some (o,t,d) <-> o records the descriptor that holds
+   the kernel lock, thread-lock owner t, counter = RLock depth = d >= 1 (d = 1 unless
+   reentrant), every other object pristine. *)
+
+(* From the initial state of the correspondence runs (Case_C12.init_seq: any number of
+   threads and objects, reentrant or not, any constructor timeouts), for every
+   contract-respecting sequence of acquire (any flavour) / acquire_ctx / with / release /
+   release(force) calls by any threads on any objects: the results are exactly the
+   spec's, and — unless the last call blocks — the final state represents the spec's
+   final state, in particular is_locked is true exactly for the held object. *)
+Theorem refines_rlock_spec :
+  forall nT cfg ops fuel,
+    let reent := Case_C12.cfg_reent cfg in
+    let dflt := Case_C12.cfg_dflt cfg in
+    ok_calls reent dflt None ops = true ->
+    (forall tc, In tc ops -> call_fuel_ok dflt fuel (snd tc)) ->
+    length ops + 4 <= fuel ->
+    let conc := run_calls fuel (Case_C12.init_seq nT cfg []) ops in
+    let spec := spec_calls reent dflt None ops in
+    fst conc = fst spec /\
+    (no_block (fst spec) = true ->
+       Rq reent dflt (snd conc) (snd spec) /\
+       forall o, is_locked (snd conc) o = spec_is_locked (snd spec) o).
+Proof. exact refines_rlock_spec_lemma. Qed.
+Print Assumptions refines_rlock_spec.
+
+(* acquire reports the truth, in every state between two calls (Rq): it returns True
+   exactly when the spec grants the lock, and then the caller holds it (is_locked true,
+   depth +1); False / TimeoutError leave the abstract state as it was. *)
+Theorem acquire_true_iff_holds :
+  forall reent dflt s st t o m blk tm poll skip fuel,
+    Rq reent dflt s st -> call_fuel_ok dflt fuel (CAcq o m blk tm poll skip) ->
+    let res := do_call fuel s t (CAcq o m blk tm poll skip) in
+    let st' := fst (spec_acquire st t o (reent o)) in
+    (snd res = RTrue <-> snd (spec_acquire st t o (reent o)) = true) /\
+    (snd res = RTrue -> Rq reent dflt (fst res) st' /\ exists d, held st' o = Some (t, d) /\ is_locked (fst res) o = true) /\
+    (snd res = RFalse \/ snd res = RTimeout -> Rq reent dflt (fst res) st /\ st' = st).
+Proof. exact acquire_true_iff_holds_lemma. Qed.
+Print Assumptions acquire_true_iff_holds.
+
+(* After the lock has been fully (depth 1) or forcibly (any depth) released, nothing is
+   locked and ANY thread can acquire ANY object again at once (the statement the
+   unrepaired release(force) broke, F6). *)
+Theorem reacquire_after_release :
+  forall reent dflt s o t d force fuel t2 o2 m blk tm poll skip,
+    Rq reent dflt s (Some (o, t, d)) -> (force = true \/ d = 1) ->
+    d + 4 <= fuel -> call_fuel_ok dflt fuel (CAcq o2 m blk tm poll skip) ->
+    let s1 := fst (do_call fuel s t (CRel o force)) in
+    Rq reent dflt s1 None /\ (forall o', is_locked s1 o' = false) /\
+    snd (do_call fuel s1 t2 (CAcq o2 m blk tm poll skip)) = RTrue.
+Proof. exact reacquire_after_release_lemma. Qed.
+Print Assumptions reacquire_after_release.
+
+(* A non-reentrant lock refuses a second acquire, also by its own holder. *)
+Theorem nonreentrant_refuses_second_acquire :
+  forall reent dflt s o t d t2 m blk tm poll skip fuel,
+    Rq reent dflt s (Some (o, t, d)) -> reent o = false ->
+    call_fuel_ok dflt fuel (CAcq o m blk tm poll skip) ->
+    let res := do_call fuel s t2 (CAcq o m blk tm poll skip) in
+    snd res = spec_no (dflt o) m blk tm /\ snd res <> RTrue /\
+    (snd res <> RWouldBlock -> Rq reent dflt (fst res) (Some (o, t, d))).
+Proof. exact nonreentrant_refuses_lemma. Qed.
+Print Assumptions nonreentrant_refuses_second_acquire.
+
+(* A reentrant lock is released only by the release matching its outermost acquire. *)
+Theorem only_outermost_release_frees :
+  forall reent dflt s o t d fuel,
+    Rq reent dflt s (Some (o, t, d)) -> 2 <= d -> d + 4 <= fuel ->
+    let s1 := fst (do_call fuel s t (CRel o false)) in
+    Rq reent dflt s1 (Some (o, t, pred d)) /\ is_locked s1 o = true.
+Proof. exact only_outermost_release_frees_lemma. Qed.
+Print Assumptions only_outermost_release_frees.
+
+(* Non-vacuity of the sequential theorems: an 8-call sequence with nesting, a refused
+   acquire by the other thread, a polling with-statement that times out, an inner and
+   a forced release, a re-acquire by the other thread on the other object, a no-op
+   release of an unheld lock. *)
+Definition ex_cfg : list (bool * tmo) := [(true, TNeg); (false, TVal 4%N)].
+Definition ex_ops : list (tid * call) :=
+  [(0, CAcq 0 MPlain true TNone 2%N 0); (0, CAcq 0 MPlain false TNone 2%N 0);
+   (1, CAcq 0 MPlain false TNone 2%N 0); (1, CAcq 1 MWith true TNone 2%N 0);
+   (0, CRel 0 false); (0, CRel 0 true); (1, CAcq 1 MCtx true (TVal 3%N) 2%N 0); (1, CRel 0 false)].
+Example refines_example :
+  ok_calls (Case_C12.cfg_reent ex_cfg) (Case_C12.cfg_dflt ex_cfg) None ex_ops = true /\
+  (length ex_ops + 4 <=? 40) = true /\
+  fst (run_calls 40 (Case_C12.init_seq 2 ex_cfg []) ex_ops) = [RTrue; RTrue; RFalse; RTimeout; RNone; RNone; RTrue; RNone] /\
+  no_block (fst (spec_calls (Case_C12.cfg_reent ex_cfg) (Case_C12.cfg_dflt ex_cfg) None ex_ops)) = true /\
+  snd (spec_calls (Case_C12.cfg_reent ex_cfg) (Case_C12.cfg_dflt ex_cfg) None ex_ops) = Some (1, 1, 1).
+Proof. vm_compute. repeat split. Qed.
+Example refines_example_fuel : forall tc, In tc ex_ops -> call_fuel_ok (Case_C12.cfg_dflt ex_cfg) 40 (snd tc).
+Proof.
+  intros tc H. cbn in H.
+  repeat (destruct H as [<-|H];
+    [cbn; first [exact I | split; [intros T E; vm_compute in E; try discriminate; vm_compute; discriminate|vm_compute; repeat constructor]]|]).
+  destruct H.
+Qed.
 
 (* Non-vacuity: two objects and two threads in one process; thread 1 holds object 1.
    Thread 0 on object 0: a non-blocking acquire gives False at once; a timed
